@@ -184,6 +184,10 @@ func (b *Bundle) Place(container string, s jx.Obj, name string) string {
 	case "pathParam":
 		p := b.newPath()
 		b.Op(p, method, Chance(b.rng, 70))
+		// a path-level parameter is shared by all the operations of the path: often more than one
+		for i := b.rng.IntN(3); i > 0; i-- {
+			b.Op(p, Pick(b.rng, MethodsAll), Chance(b.rng, 70))
+		}
 		pi := jx.AsObj(jx.AsObj(b.Root["paths"])[p])
 		pi["parameters"] = append(jx.AsArr(pi["parameters"]), jx.Obj{"name": "body", "in": "body", "schema": s})
 		return "/paths/" + jx.EscTok(p) + "/parameters/0/schema"
@@ -192,7 +196,8 @@ func (b *Bundle) Place(container string, s jx.Obj, name string) string {
 		op := b.Op(p, method, Chance(b.rng, 70))
 		k := "default"
 		if container == "codeResponse" {
-			k = Pick(b.rng, []string{"200", "201", "404"})
+			// registered and unregistered status codes alike (299, 420, 599 have no reason phrase in net/http)
+			k = Pick(b.rng, []string{"200", "201", "404", "299", "420", "599"})
 		}
 		jx.AsObj(op["responses"])[k] = jx.Obj{"description": b.lbl("resp"), "schema": s}
 		return "/paths/" + jx.EscTok(p) + "/" + method + "/responses/" + k + "/schema"
@@ -396,9 +401,14 @@ func (b *Bundle) Target(kind, name string) string {
 			tail = "/additionalProperties"
 		}
 		b.Def(n, host)
-		// keep the host in use
-		op := b.Op(b.newPath(), "get", true)
-		jx.AsObj(op["responses"])["200"] = jx.Obj{"description": "host", "schema": jx.Obj{"$ref": "#/definitions/" + jx.EscTok(n)}}
+		if Chance(b.rng, 60) {
+			// keep the host in use
+			op := b.Op(b.newPath(), "get", true)
+			jx.AsObj(op["responses"])["200"] = jx.Obj{"description": "host", "schema": jx.Obj{"$ref": "#/definitions/" + jx.EscTok(n)}}
+		} else {
+			// the host is used through the pointer only: once the pointer is resolved, RemoveUnused has to drop it
+			b.Tag("host-used-by-pointer-only")
+		}
 		return "#/definitions/" + jx.EscTok(n) + tail
 	case "anonSharedParam":
 		b.AnonPtr, b.AnonShared = true, true
